@@ -114,7 +114,7 @@ PLAN = {
                 bounds={"quick": "all placements with <=4 deviations per scenario (peer scripts have <=5 moves, so this is every placement of every move, plus <=1 injected answer)",
                         "thorough": "<=6 deviations; plus ordinary delay-bounded exploration (every point, 1 deviation) of 13 representative scenarios"}),
     "C16": _qplan("DATA_ADD, timer, read and write sources cancelled before activation, from the handler, from an item on the target queue, from another thread while events arrive, twice, "
-                  "with cancel_and_wait, racing activation, from the registration handler, and with a sibling source on the same descriptor; epoll registrations mirrored by the scheduler",
+                  "with cancel_and_wait, racing activation, from the registration handler, with a sibling source on the same descriptor, and cancel followed by cancel_and_wait on a never-activated source; epoll registrations mirrored by the scheduler",
                   "k<=2 for the 14 smaller scenarios, k<=1 for the rest", "k<=3 / k<=2"),
     "C11": dict(_qplan("dispatch_after with past/now/+1ms/+1s deadlines on the three clocks; periodic, one-shot, re-armed, replaced-before-activation, re-set while armed (same clock and across clocks), suspended and concurrent timer populations on virtual clocks "
                        "('timer expires first' is a deviation)",
